@@ -7,10 +7,11 @@ use crate::sx::*;
 use pdbtbx::*;
 
 fn mat_sx(t: &TransformationMatrix) -> Sx {
-    l(t.matrix().iter().flat_map(|r| r.iter().map(|v| f(*v))).collect())
+    // the sign of a zero is not part of the value (the model computes with exact rationals)
+    l(t.matrix().iter().flat_map(|r| r.iter().map(|v| f(*v + 0.0))).collect())
 }
 fn pt_sx(p: (f64, f64, f64)) -> Sx {
-    l(vec![f(p.0), f(p.1), f(p.2)])
+    l(vec![f(p.0 + 0.0), f(p.1 + 0.0), f(p.2 + 0.0)])
 }
 /// matrices whose entries are multiples of 1/4 in [-4, 4]: products and sums of a few factors stay exact in binary64
 fn small_matrix(rng: &mut Rng) -> TransformationMatrix {
